@@ -552,3 +552,117 @@ Definition link_state (m : flatmap) (l : key * N) : key * option bool :=
 Definition dump_file (f : file) : list (key * attrs * list (key * option bool)) * option (key * option bool) :=
   (map (fun '(k, n) => (k, fattrs n, map (link_state (flat f)) (flinks n))) (flat f),
    match rootlink f with Some l => Some (link_state (flat f) l) | None => None end).
+
+(* ====================================================================================================== *)
+(* Two workspaces and copies between them (Workspace.copy_to_parent's identifier rule)                     *)
+(* ====================================================================================================== *)
+(* A copy into ANOTHER workspace keeps the source's identifier whenever `target.get_entity(uid)` finds nothing:
+   the look-up walks the target's registries of weak references — an identifier whose entity is dead is dropped from
+   the registry on the way (weakref_utils.get_clean_ref) and counts as free, although its flat node may still be in
+   the target's file.  Property groups follow the same rule on their own registry (find_property_group). *)
+Record world := { wa : ws; wb : ws }.
+Definition wsel (i : bool) (W : world) : ws := if i then wb W else wa W.
+Definition wput (i : bool) (w : ws) (W : world) : world :=
+  if i then {| wa := wa W; wb := w |} else {| wa := w; wb := wb W |}.
+
+Fixpoint all_pg_ids (t : tree) : list N :=
+  let 'Node _ a l := t in map pg_id (apgs a) ++ flat_map all_pg_ids l.
+Definition memN (x : N) (l : list N) : bool := existsb (N.eqb x) l.
+
+(* choose an identifier: the source's when free among [used], else the next drawn one *)
+Definition pick (used : list N) (src : N) (ids : list N) : option (N * list N) :=
+  if memN src used then match ids with [] => None | i :: r => Some (i, r) end else Some (src, ids).
+
+(* copy_x used pgused t ids = (copy, entity identifiers now in use, group identifiers now in use, identifiers left) *)
+Fixpoint copy_x (used pgused : list N) (t : tree) (ids : list N) : option (tree * list N * list N * list N) :=
+  let 'Node k a l := t in
+  match pick used (snd k) ids with
+  | None => None
+  | Some (i, ids1) =>
+      let used1 := i :: used in
+      match fst k with
+      | KD => Some (Node (KD, i) (with_pgs a []) [], used1, pgused, ids1)
+      | KG =>
+          match (fix go (l : list tree) (st : list N * list N * list N) : option (list tree * list N * list N * list N) :=
+                   match l with
+                   | [] => let '(u, pu, r) := st in Some ([], u, pu, r)
+                   | c :: rest =>
+                       let '(u, pu, r) := st in
+                       match copy_x u pu c r with
+                       | Some (c', u', pu', r') =>
+                           match go rest (u', pu', r') with
+                           | Some (l', u'', pu'', r'') => Some (c' :: l', u'', pu'', r'')
+                           | None => None
+                           end
+                       | None => None
+                       end
+                   end) l (used1, pgused, ids1) with
+          | Some (l', u', pu', r') => Some (Node (KG, i) (with_pgs a []) l', u', pu', r')
+          | None => None
+          end
+      | KO =>
+          (* data children one by one, then the property groups, members remapped through the children map *)
+          match (fix go (l : list tree) (st : list N * list N) : option (list (tree * key) * list N * list N) :=
+                   match l with
+                   | [] => Some ([], fst st, snd st)
+                   | c :: rest =>
+                       match pick (fst st) (snd (tkey c)) (snd st) with
+                       | Some (j, r) =>
+                           match go rest (j :: fst st, r) with
+                           | Some (l', u', r') => Some ((Node (KD, j) (with_pgs (tattrs c) []) [], tkey c) :: l', u', r')
+                           | None => None
+                           end
+                       | None => None
+                       end
+                   end) l (used1, ids1) with
+          | Some (kids, u', r') =>
+              let cmap := map (fun p => (snd p, tkey (fst p))) kids in
+              match (fix gp (gs : list pgroup) (st : list N * list N) : option (list pgroup * list N * list N) :=
+                       match gs with
+                       | [] => Some ([], fst st, snd st)
+                       | g :: rest =>
+                           match pick (fst st) (pg_id g) (snd st) with
+                           | Some (j, r) =>
+                               match gp rest (j :: fst st, r) with
+                               | Some (gs', pu', r'') => Some ((j, pg_name g, remap cmap (pg_members g)) :: gs', pu', r'')
+                               | None => None
+                               end
+                           | None => None
+                           end
+                       end) (apgs a) (pgused, r') with
+              | Some (pgs', pu', r'') => Some (Node (KO, i) (with_pgs a pgs') (map fst kids), u', pu', r'')
+              | None => None
+              end
+          | None => None
+          end
+      end
+  end.
+
+Definition do_copy_x (src tgt : ws) (e q : key) (ids : list N) : ws * outcome :=
+  match find e (wmem src), find q (wmem tgt) with
+  | Some te, Some _ =>
+      if negb (can_hold (fst q) (fst e)) || key_eqb e rootkey then (tgt, Refused)
+      else
+        let used := map snd (keys_of (wmem tgt)) in
+        match copy_x used (all_pg_ids (wmem tgt)) te ids with
+        | Some (t', _, _, []) =>
+            ({| wmem := upd q (add_kid t') (wmem tgt); wfile := save_copy q t' (wfile tgt);
+                (* every look-up of a copied identifier forgets a dead registry entry of that identifier, of any kind *)
+                wpend := filter (fun k => negb (memN (snd k) (map snd (keys_of te)))) (wpend tgt) |}, Done)
+        | _ => (tgt, Refused)
+        end
+  | _, _ => (tgt, Refused)
+  end.
+
+Inductive wop :=
+| On (i : bool) (o : op)                               (* an operation of workspace i *)
+| CopyX (i : bool) (e q : key) (ids : list N).         (* e.copy(parent=q) with e in workspace i and q in the other one *)
+
+Definition wstep (W : world) (o : wop) : world * outcome :=
+  match o with
+  | On i o' => let '(w', oc) := step (wsel i W) o' in (wput i w' W, oc)
+  | CopyX i e q ids => let '(t', oc) := do_copy_x (wsel i W) (wsel (negb i) W) e q ids in (wput (negb i) t' W, oc)
+  end.
+
+Definition winit : world := {| wa := init; wb := init |}.
+Definition wrun (ops : list wop) (W : world) : world := fold_left (fun W o => fst (wstep W o)) ops W.
